@@ -71,7 +71,7 @@ def run(rec, cfg):
     rules = MR.rule_instances()
     n = cfg.scale(32, 12000)
 
-    def drive(root, depth_limit=3):
+    def drive(root, depth_limit=3, rules=rules, big=False):
         frontier = [root]
         for depth in range(depth_limit):
             nxt = []
@@ -79,7 +79,7 @@ def run(rec, cfg):
                 for label, rule in rules:
                     rule.find_node(r)
                 for label, idx, new_root in D.apply_everywhere(rec, r, rules, rng, cap=5 if depth == 0 else 2):
-                    if new_root is not None and not D.too_big(S.shadow(new_root)):
+                    if new_root is not None and not D.too_big(S.shadow(new_root), big):
                         nxt.append(new_root)
             if not nxt:
                 break
@@ -93,11 +93,13 @@ def run(rec, cfg):
         if cfg.out_of_time():
             rec.truncated = True
             break
-        root = RC.parse_start(text)
+        big = src == "big-text"
+        root = RC.parse_start(text, allow_big=big)
+        use = RC.rules_for(src, rules)
         if root is None:
             continue
         rec.arm("start:" + src)
-        drive(root)
+        drive(root, rules=use, big=big)
         if rng.random() < 0.02:
             rec.sample({"source": src, "start": text[:120]})
 
